@@ -143,12 +143,18 @@ def oracle_tables_deser(env, doc):
         sd[i] = rows
     for kind in others:
         i, src, _ = T.OTHER[kind]
-        exec("class _S(Structure):\n    f = %s\n    _required = []\n" % src, ns)
-        cls = ns["_S"]
+        exec("class _S(Structure):\n    f = %s\n    _required = []\n"
+             "class _SA(Structure):\n    f = Array[%s]\n    _required = []\n" % (src, src), ns)
+        cls, cls_a = ns["_S"], ns["_SA"]
         from typedpy import deserialize_structure
         rows = []
         for v, r in uniq:
             def run(v=v):
+                if v is None:
+                    # a null document value means "absent" for a field; as an ELEMENT of a collection of such
+                    # fields (the only place the model asks about it) it is a value like any other
+                    x = deserialize_structure(cls_a, {"f": [None]}, keep_undefined=False)
+                    return x.__dict__.get("f")[0]
                 x = deserialize_structure(cls, {"f": copy.deepcopy(v)}, keep_undefined=False)
                 return x.__dict__.get("f")
             o, _ = outcome_of(run)
@@ -716,7 +722,9 @@ def stream_deser(rep, rnd, n, model_ok):
 
 def emit_kcase(ctx, name, kw, cons, tr):
     c = ctx.ast(name)
-    tbl = G.match_table([fd["field"] for fd in c["fields"]], [v for _, v in kw])
+    # strings the patterns are matched against: the arguments and the declared defaults
+    tbl = G.match_table([fd["field"] for fd in c["fields"]],
+                        [v for _, v in kw] + [fd["default"] for fd in c["fields"] if fd.get("default") is not None])
     return "{| kc_tbl := %s; kc_env := env0; kc_cls := %s; kc_kw := %s; kc_cons := %s; kc_trusted := %s |}" % (
         G.emit_table(tbl), ctx.emit_classdef(name), E.lst(["(%s, %s)" % (E.pstr(k), E.pval(v)) for k, v in kw]),
         E.outcome(cons), E.outcome(tr))
